@@ -661,4 +661,18 @@ def execute_guards(ctx) -> None:
                 ctx.rep.check(ok, rule, c, f"{plate} is refused exactly when it has fewer {axis} than the plan (self.{want})",
                               f"{plate} is refused when `{show(r)[:70]}` is {pol}: the {axis} of the plate are not compared with the plan's own self.{want} - a plate that has room for the plan is "
                               "refused (or one that is too small is accepted)", where=f.where(rn.ast))
+    # ... and a plate that does not fit is refused before anything was executed: no call on the worklist (transfer, commit,
+    # comment ..) can run before a plate-size raise is reached - otherwise the refused request has already consumed stock and
+    # left records behind, and the plan cannot be executed as planned on the same labware afterwards
+    effects = [cs for cs in fv.calls() if isinstance(cs.call.func, ast.Attribute) and is_name(cs.call.func.value, "worklist")]
+    late = []
+    for rn in fv.cfg.nodes:
+        if rn.kind == "stmt" and isinstance(rn.ast, ast.Raise) and any(dim_of(x) is not None for raw, _p in enclosing_atoms(rn.ast) for x in ast.walk(fv.res.resolve(raw, rn.id))):
+            for cs in effects:
+                if fv.cfg.reaches(cs.node, rn.id):
+                    late.append((rn, cs))
+                    break
+    ctx.rep.check(not late, rule, f"{f.qualname}/guards-before-effects", f"the plate-size refusals are reached before any of the {len(effects)} calls on the worklist",
+                  (f"the plate-size refusal at line {late[0][0].ast.lineno} can be reached after `{show(late[0][1].call)[:60]}` has run: a request that is refused has already been executed in part "
+                   "(records appended, stock and diluent consumed, plate filled)") if late else "", where=f.where(late[0][0].ast) if late else f.where())
     ctx.rep.floor(rule, "plate-size guards of to_worklist", len(seen), 4)
